@@ -45,7 +45,7 @@ theorem funnel :
       (saveList pre l).included = ((visitedList pre l).filter good).map (·.1))
   all_goals intros
   all_goals simp_all [save, saveList, visited, visitedList, bad, good, View.isSourceItem, View.fullyRead, View.contentRead]
-  all_goals (first | done | (rename_i ih; exact ⟨fun _ => ih.1, ih.2⟩) | trace_state; sorry)
+  all_goals (first | done | (rename_i ih; exact ⟨fun _ => ih.1, ih.2⟩))
 
 
 theorem errors_iff_unread (t : Src) : (save [] t).errors = [] ↔ unreadItems t = [] := by
